@@ -333,7 +333,94 @@ func init() {
 			return "err other"
 		}
 	}
+	// rest_out: the message of rest_rt sent by a Connect (JSON) client through Transcoder.ServeHTTP
+	// to a service whose only target protocol is REST: what request reaches the backend, and how often
+	executors["rest_out"] = func(a []string) string {
+		raw, err := hex.DecodeString(a[0])
+		if err != nil {
+			return "bad-op"
+		}
+		op := &restOp{}
+		if err := json.Unmarshal(raw, op); err != nil {
+			return "bad-op"
+		}
+		t, backend, err := restTargetTranscoder(op.Rule)
+		if err != nil {
+			return "config-rejected"
+		}
+		msg, err := msgFromLeaves(op.Leaves)
+		if err != nil {
+			return "bad-op"
+		}
+		body, _ := proto.Marshal(msg)
+		req := httptest.NewRequest("POST", "http://example.test"+restMethodPath, bytes.NewReader(body))
+		req.Header.Set("Content-Type", "application/proto") // Connect unary, proto codec
+		req.Header.Set("Connect-Protocol-Version", "1")
+		backend.calls, backend.line, backend.got = 0, "", nil
+		rec := httptest.NewRecorder()
+		t.ServeHTTP(rec, req)
+		if backend.calls == 0 {
+			if os.Getenv("VERIF_DEBUG") != "" {
+				fmt.Fprintf(os.Stderr, "status %d body %s\n", rec.Code, rec.Body.String())
+			}
+			if rec.Code == 200 {
+				return "disp=0 status=200"
+			}
+			return "disp=0 err"
+		}
+		bodyOut := "none"
+		if op.Rule.Body != "" {
+			bodyOut = bodyLeaves(op.Rule, backend.got)
+		}
+		out := fmt.Sprintf("disp=%d enc %s body=%s", backend.calls, backend.line, bodyOut)
+		if rec.Code != 200 {
+			out += fmt.Sprintf(" status=%d", rec.Code)
+		}
+		return out
+	}
 	streams["rest"] = streamRest
+}
+
+// restTargetBackend stands for a REST server: it records the request line and body and answers {}.
+type restTargetBackend struct {
+	calls int
+	line  string
+	got   []byte
+}
+
+func (b *restTargetBackend) ServeHTTP(w http.ResponseWriter, r *http.Request) {
+	b.calls++
+	b.line = fmt.Sprintf("%s %s %s", r.Method, hs(r.URL.EscapedPath()), hs(r.URL.RawQuery))
+	b.got, _ = io.ReadAll(r.Body)
+	w.Header().Set("Content-Type", "application/json")
+	w.WriteHeader(200)
+	_, _ = w.Write([]byte("{}"))
+}
+
+var restTargetCache = map[string]*struct {
+	t *vanguard.Transcoder
+	b *restTargetBackend
+}{}
+
+func restTargetTranscoder(rule cfgBinding) (*vanguard.Transcoder, *restTargetBackend, error) {
+	key := fmt.Sprint(rule)
+	if e, ok := restTargetCache[key]; ok {
+		return e.t, e.b, nil
+	}
+	b := &restTargetBackend{}
+	hr := rule.rule()
+	hr.Selector = "cfg.v1.Lib.Get"
+	t, err := vanguard.NewTranscoder([]*vanguard.Service{vanguard.NewServiceWithSchema(cfgSchema["cfg.v1.Lib"], b,
+		vanguard.WithTargetProtocols(vanguard.ProtocolREST), vanguard.WithTargetCodecs("json"), vanguard.WithNoTargetCompression())},
+		vanguard.WithRules(hr))
+	if err != nil {
+		return nil, nil, err
+	}
+	restTargetCache[key] = &struct {
+		t *vanguard.Transcoder
+		b *restTargetBackend
+	}{t, b}
+	return t, b, nil
 }
 
 type restBackend struct{ got []byte }
@@ -442,6 +529,7 @@ func streamRest(e *Emitter, rng *rand.Rand, tier string) {
 			raw, _ := json.Marshal(op)
 			e.Class("rest:roundtrip body=" + op.Rule.Body)
 			e.Emit("rest_rt " + hex.EncodeToString(raw))
+			e.Emit("rest_out " + hex.EncodeToString(raw))
 			continue
 		}
 		// an arbitrary REST request against the rule
